@@ -459,17 +459,16 @@ def check_arm_results(ctx, lib, rule="node-vocabulary"):
         b = ctx.fn(P + fn, rule=rule)
         if b is None:
             continue
-        o = Origins(b, lib)
-        br = Branches(b, o)
-        blk, ve = first_discr_switch(b, br, TOKEN)
-        if ve is None:
+        from ..parsing import KindDispatch
+        kd = KindDispatch(lib, b)
+        if kd.first_consume is None:
             ctx.missing(rule, f"{fn}:results", f"{fn} does not dispatch on the consumed token")
             continue
         oks, opaque = RT.ok_values(b)
         covered = set()
-        for variant, tgt in sorted(ve["edges"].items()):
-            e = (blk, tgt)
-            blocks = {x for x in region(b, tgt) if edge_dominates(b, e, x)}
+        for variant in sorted(K for K in ALL_TOKENS if kd.accepts(K)):
+            blocks = kd.region(variant)
+            o = kd.origins(variant)
             bad = []
             cnt = 0
             for ob, op in oks:
@@ -587,27 +586,36 @@ def check_nodes(ctx, lib):
             ctx.check(is_call_to(field_terms(o, s, "elements"), P + "parse_list"), rule, "parse_multi_list:MultiList",
                       "MultiList{elements: parse_list(Rbracket)}", b.span)
 
-    # led
+    # led — examined per kind of the consumed token (parsing.KindDispatch): the blocks that run for that kind, with the
+    # provenance along them
+    from ..parsing import KindDispatch
     b = ctx.fn(P + "led", rule=rule)
     if b:
-        o = Origins(b, lib)
-        br = Branches(b, o)
-        blk, ve = first_discr_switch(b, br, TOKEN)
-        if ve:
-            handled = set(ve["edges"])
+        kd = KindDispatch(lib, b)
+        if True:
+            handled = {K for K in ALL_TOKENS if kd.accepts(K)}
             want = {"Dot", "Lbracket", "Or", "And", "Pipe", "Lparen", "Flatten", "Filter"} | set(CMP)
             ctx.check(handled == want, rule, "led:kinds", f"led handles exactly the infix/postfix kinds (found {sorted(handled)})", b.span)
             left = {("param", 2)}
 
-            def arm(variant):
-                return region(b, ve["edges"][variant]) if variant in ve["edges"] else set()
+            def arm_only(variant):
+                return kd.region(variant)
+
+            class _PerKind:
+                """`o` of the arm currently examined."""
+                cur = None
+
+                def of_operand(self, op):
+                    return kd.origins(self.cur).of_operand(op)
+
+                def of_local(self, l):
+                    return kd.origins(self.cur).of_local(l)
+            o = _PerKind()
+            _arm_only = arm_only
 
             def arm_only(variant):
-                # blocks reachable only through this arm
-                if variant not in ve["edges"]:
-                    return set()
-                e = (blk, ve["edges"][variant])
-                return {x for x in arm(variant) if edge_dominates(b, e, x)}
+                o.cur = variant
+                return _arm_only(variant)
 
             binaries = {"Or": "Or", "And": "And", "Pipe": "Subexpr"}
             for tok, node in binaries.items():
@@ -666,20 +674,28 @@ def check_nodes(ctx, lib):
                     is_call_to(field_terms(o, aggs[0], "args"), P + "parse_list")
             n += 1
             ctx.check(ok, rule, "led:Lparen", "`(` builds Function{name: the Field name on the left, args: parse_list(Rparen)}", b.span)
-    # nud
+    # nud — likewise per kind of the consumed token
     b = ctx.fn(P + "nud", rule=rule)
     if b:
-        o = Origins(b, lib)
-        br = Branches(b, o)
-        blk, ve = first_discr_switch(b, br, TOKEN)
-        if ve:
-            def arm_only(variant):
-                if variant not in ve["edges"]:
-                    return set()
-                e = (blk, ve["edges"][variant])
-                return {x for x in region(b, ve["edges"][variant]) if edge_dominates(b, e, x)}
+        kd = KindDispatch(lib, b)
+        if True:
+            class _PerKindN:
+                cur = None
 
-            tokpay = lambda v: {("field", t, f"{v}.0") for t in ve["scrutinee"]}
+                def of_operand(self, op):
+                    return kd.origins(self.cur).of_operand(op)
+
+                def of_local(self, l):
+                    return kd.origins(self.cur).of_local(l)
+            o = _PerKindN()
+
+            def arm_only(variant):
+                o.cur = variant
+                return kd.region(variant)
+
+            def tokpay_ok(terms, v):
+                # the payload of the consumed token itself
+                return bool(terms) and all(t[0] == "field" and t[2] == f"{v}.0" and kd.consumed(t[1]) for t in terms)
             rows = [
                 ("At", "Identity", None),
                 ("Identifier", "Field", ("name", "Identifier")),
@@ -691,7 +707,7 @@ def check_nodes(ctx, lib):
                 aggs = [s for _, _, s in region_aggs(b, blocks, AST)]
                 ok = len(aggs) == 1 and aggs[0]["rv"]["variant"] == node
                 if ok and pay:
-                    ok = field_terms(o, aggs[0], pay[0]) == tokpay(pay[1])
+                    ok = tokpay_ok(field_terms(o, aggs[0], pay[0]), pay[1])
                 n += 1
                 ctx.check(ok, rule, f"nud:{tok}", f"{tok} builds {node} carrying the token's own payload", b.span)
             for tok, node, fld in (("Ampersand", "Expref", "ast"), ("Not", "Not", "node")):
